@@ -422,6 +422,9 @@ func truthTable(fn *ssa.Function, recv ssa.Value, atoms []string, consistent fun
 			if v, ok := a[key]; ok {
 				return triOf(v)
 			}
+			if truthTableExtra != nil {
+				return truthTableExtra(key)
+			}
 			return triU
 		}}
 		for _, p := range bs.simulate(fn, recv) {
@@ -432,6 +435,10 @@ func truthTable(fn *ssa.Function, recv ssa.Value, atoms []string, consistent fun
 	}
 	return
 }
+
+// truthTableExtra, when set, decides atoms that are not among the enumerated ones (a concrete value of an integer key fixed
+// by the caller for the duration of one table).
+var truthTableExtra func(key string) tri
 
 func assignStr(a map[string]bool) string {
 	var ks []string
